@@ -565,7 +565,10 @@ def put_model(mjm: mujoco.MjModel, batch_sizes: dict[str, int] | None = None) ->
   weld_parentid1 = mjm.body_weldid[mjm.body_parentid[weldid1]]
   weld_parentid2 = mjm.body_weldid[mjm.body_parentid[weldid2]]
 
-  self_collision = weldid1 == weldid2
+  # bodies without degrees of freedom (world, mocap bodies and bodies welded to them) never collide with each other
+  nodof1 = np.array([mjm.body_dofnum[w] for w in weldid1], dtype=int) == 0
+  nodof2 = np.array([mjm.body_dofnum[w] for w in weldid2], dtype=int) == 0
+  self_collision = (weldid1 == weldid2) | (nodof1 & nodof2)
   parent_child_collision = (
     filterparent & (weldid1 != 0) & (weldid2 != 0) & ((weldid1 == weld_parentid2) | (weldid2 == weld_parentid1))
   )
